@@ -513,9 +513,13 @@ class ModelEval(Evaluator):
                 return a in obj._attrs or self.tree.method(obj._cls, a) is not None
             if isinstance(obj, Model):
                 return hasattr(obj, a)
-            return hasattr(obj, a) if isinstance(obj, (dict, list, str, tuple)) else False
+            return hasattr(obj, a) if isinstance(obj, (dict, list, str, tuple, slice, range, int, float, bool, type(None), set, frozenset, bytes)) else False
         if name == "getattr":
             obj, a = args[0], args[1]
+            if isinstance(obj, (slice, range, int, float, bool, type(None), bytes)) and not hasattr(obj, a):
+                if len(args) > 2:
+                    return args[2]
+                raise Raised("AttributeError", node, "%s has no attribute %s" % (type(obj).__name__, a))
             try:
                 fake = ast.Attribute(value=ast.Constant(value=None), attr=a, ctx=ast.Load(), lineno=getattr(node, "lineno", 0), col_offset=0)
                 return self.attr(fake, obj)
